@@ -44,13 +44,17 @@ AddStranger ==       \* a new person, under a free pointer or under a pointer th
        /\ ~\E q \in Idx(right.people) : right.people[q].p = p
        /\ right' = [right EXCEPT !.people = Append(@, [p |-> p, who |-> 99])]
   /\ UNCHANGED <<left, stage, out>>
+RenumberFamilies ==  \* the families were re-entered under other pointers; the individuals keep theirs
+  /\ stage = "edit" /\ right.fams # <<>> /\ \A k \in Idx(right.fams) : SubSeq(right.fams[k].p, 1, 1) \notin {"X", "Y"}
+  /\ right' = [right EXCEPT !.fams = [k \in Idx(@) |-> [@[k] EXCEPT !.p = "Y" \o @]]]
+  /\ UNCHANGED <<left, stage, out>>
 DropFamilies ==
   /\ stage = "edit" /\ right.fams # <<>> /\ right' = [right EXCEPT !.fams = <<>>] /\ UNCHANGED <<left, stage, out>>
 DoMerge ==
   /\ stage = "edit" /\ stage' = "merged"
   /\ out' = Merge([left |-> left, right |-> right], NoRewrite)
   /\ UNCHANGED <<left, right>>
-MNext == RenumberOne \/ RenumberAll \/ DropUnreferenced \/ AddStranger \/ DropFamilies \/ DoMerge
+MNext == RenumberOne \/ RenumberAll \/ RenumberFamilies \/ DropUnreferenced \/ AddStranger \/ DropFamilies \/ DoMerge
 MSpec == MInit /\ [][MNext]_mvars
 
 D == [left |-> left, right |-> right]
